@@ -195,14 +195,18 @@ CondFillers == <<
    Cond(Lb, Lc, Empty), Cond(Lb, Lc, La), Cond(Look(La), La, Lb), Cond(NLook(La), Lb, La),
    Cond(Alt(<<La, Cat(<<La, Lb>>)>>), Lc, Lb), Cond(Star(La), Lb, Lc), Cond(Cond(Lb, La, Empty), Lb, La),
    Cond(Lb, Empty, Lc), Cond(Cat(<<La, Lb>>), Lc, Cat(<<La, Lc>>)), Cond(La, Cond(Lb, Lc, La), Lb),
-   Cond(La, Lb, Cond(Lb, Lc, Empty)), Cond(LookB(La), Lb, Lc), Cond(Grp(201, La), Bref(201), Lb)
+   Cond(La, Lb, Cond(Lb, Lc, Empty)), Cond(LookB(La), Lb, Lc), Cond(Grp(201, La), Bref(201), Lb),
+   \* branches that can match in several ways: what follows must be able to make them give back / try the next way
+   Cond(La, Star(Lb), Lc), Cond(La, Alt(<<Lb, Cat(<<Lb, Lc>>)>>), Lc), Cond(La, Lc, Star(Lb)), Cond(Look(La), Star(AnyC), Lb),
+   Cond(La, Rep(Lb, 0, 1, TRUE), Lc), Cond(Lc, Lc, Alt(<<La, Cat(<<La, Lb>>)>>))
 >>
 \* fillers that test group 101, which the context opens (optionally) to the left
 CondFillersG == <<
    Cond(Bex(101), La, Lb), Bex(101), Cond(Bex(101), Empty, Lb), Cond(Bex(101), Lb, Empty),
-   Cond(Bex(101), Cond(Lb, Lc, Empty), La), Cond(Cond(Bex(101), La, Empty), Lb, Lc), Cond(Bex(101), Bref(101), Lc)
+   Cond(Bex(101), Cond(Lb, Lc, Empty), La), Cond(Cond(Bex(101), La, Empty), Lb, Lc), Cond(Bex(101), Bref(101), Lc),
+   Cond(Bex(101), Alt(<<Lb, Cat(<<Lb, Lc>>)>>), Lc), Cond(Bex(101), Lc, Star(Lb)), Cond(Bex(101), Star(Lb), Lc)
 >>
-NCondContexts == 14
+NCondContexts == 17
 CondCtx(i, H) ==
    CASE i = 1  -> H
      [] i = 2  -> Cat(<<H, La>>)
@@ -218,6 +222,9 @@ CondCtx(i, H) ==
      [] i = 12 -> Cat(<<Atom(Cat(<<LazyStar(Lb), H>>)), Lb>>)
      [] i = 13 -> Cat(<<Plus(Cat(<<Opt(La), H>>)), Lc>>)
      [] i = 14 -> Cat(<<Star(AnyC), H, E0>>)
+     [] i = 15 -> Cat(<<H, Lb>>)
+     [] i = 16 -> Cat(<<H, Lc, Asrt("eol")>>)
+     [] i = 17 -> Cat(<<Grp(102, H), Lb, Lc>>)
 CondCtxFillPats ==
    LET S1 == { CondCtx(i, CondFillers[j]) : i \in 1..NCondContexts, j \in 1..Len(CondFillers) }
        S2 == { Cat(<<Opt(Grp(101, La)), CondCtx(i, CondFillersG[j])>>) : i \in 1..NCondContexts, j \in 1..Len(CondFillersG) }
